@@ -1,6 +1,99 @@
-/-! line protocol for C11 (stub: no model yet) -/
-namespace ObiVerif.Driver.C11
+import ObiVerif.Model.Pcr
+import ObiVerif.Driver.Util
+/-! line protocol for C11
 
-def run (_line : String) : String := "bad-op"
+```
+pcr  <fwd> <rev> <ef> <er> <min> <max> <ext> <full> <circ> <tpl>[,<tpl>...]
+       -> fatal | panic | unmodelled | per template ("|") the amplicons in order ("," ; "-" = none), each
+          d/from+1..to/amplicon/forward_match/forward_error/reverse_match/reverse_error
+frag <fwd> <rev> <e> <min> <max> <ext> <full> <minsize> <length> <overlap> <tpl>
+       -> <fragment coordinates a..b,… | whole> <amplicons per fragment as above>
+cli  <fwd> <rev> <e> <min> <max> <delta> <full> <tpl>
+       -> the amplicons d/fragment/from+1 (in the template)/amplicon/…, sorted (fragments cut with the parameters of CLIPCR)
+```
+byte strings in hex. -/
+namespace ObiVerif.Driver.C11
+open ObiVerif ObiVerif.Apat ObiVerif.Pcr ObiVerif.Driver
+
+def bool? (s : String) : Option Bool := if s = "1" then some true else if s = "0" then some false else none
+
+def showAmp (a : Amplicon) : String :=
+  s!"{if a.isForward then "f" else "r"}/{a.idFrom}..{a.idTo}/{hex a.seq}/{hex a.fmatch}/{a.ferr}/{hex a.rmatch}/{a.rerr}"
+
+def showList (l : List Amplicon) : String := if l.isEmpty then "-" else ",".intercalate (l.map showAmp)
+
+def showBad : Bad → String
+  | .fatal => "fatal"
+  | .panic => "panic"
+
+def splitTpls (s : String) : Option (List Bytes) := (s.splitOn ",").mapM unhex
+
+/-- insertion sort of strings (canonical order of the `cli` result) -/
+def insStr (x : String) : List String → List String
+  | [] => [x]
+  | y :: ys => if x ≤ y then x :: y :: ys else y :: insStr x ys
+def sortStr (l : List String) : List String := l.foldr insStr []
+
+def run (line : String) : String :=
+  match words line with
+  | ["pcr", fw, rv, ef, er, mn, mx, ext, full, circ, tpls] =>
+    match unhex fw, unhex rv, ef.toNat?, er.toNat?, mn.toInt?, mx.toInt?, ext.toInt?, bool? full, bool? circ, splitTpls tpls with
+    | some fw, some rv, some ef, some er, some mn, some mx, some ext, some full, some circ, some tpls =>
+      if ef > 63 || er > 63 then "bad-op"
+      else if fw.length ≥ Gen.apatMaxPatLen || rv.length ≥ Gen.apatMaxPatLen then "unmodelled"
+      else
+        let o : Opts := ⟨mn, mx, circ, ext, full⟩
+        match mkPrimers fw rv ef er with
+        | none => "fatal"
+        | some P =>
+          match pcrSlice P o (tpls.map fun t => t.map lowerByte) with
+          | .error b => showBad b
+          | .ok per =>
+            if circ && tpls.any (fun t => t.length < Gen.apatMaxPatLen && max fw.length rv.length > t.length) then "unmodelled"
+            else "|".intercalate (per.map showList)
+    | _, _, _, _, _, _, _, _, _, _ => "bad-op"
+  | ["frag", fw, rv, e, mn, mx, ext, full, minsize, length, overlap, tpl] =>
+    match unhex fw, unhex rv, e.toNat?, mn.toInt?, mx.toInt?, ext.toInt?, bool? full, minsize.toInt?, length.toInt?, overlap.toInt?, unhex tpl with
+    | some fw, some rv, some e, some mn, some mx, some ext, some full, some minsize, some length, some overlap, some tpl =>
+      if e > 63 || fw.length ≥ Gen.apatMaxPatLen || rv.length ≥ Gen.apatMaxPatLen || length - overlap < 1 || minsize < 0 then "bad-op"
+      else
+        let o : Opts := ⟨mn, mx, false, ext, full⟩
+        let t := tpl.map lowerByte
+        match mkPrimers fw rv e e, fragments minsize length overlap t.length with
+        | some P, some frs =>
+          let pieces : List Bytes := match frs with
+            | none => [t]
+            | some l => l.map fun (ab : Nat × Nat) => (t.drop ab.1).take (ab.2 - ab.1)
+          let names := match frs with
+            | none => "whole"
+            | some l => ",".intercalate (l.map fun (ab : Nat × Nat) => s!"{ab.1 + 1}..{ab.2}")
+          match pcrSlice P o pieces with
+          | .error b => showBad b
+          | .ok per => s!"{names} {"|".intercalate (per.map showList)}"
+        | _, _ => "bad-op"
+    | _, _, _, _, _, _, _, _, _, _, _ => "bad-op"
+  | ["cli", fw, rv, e, mn, mx, delta, full, tpl] =>
+    match unhex fw, unhex rv, e.toNat?, mn.toInt?, mx.toInt?, delta.toInt?, bool? full, unhex tpl with
+    | some fw, some rv, some e, some mn, some mx, some delta, some full, some tpl =>
+      if e > 63 || fw.length ≥ Gen.apatMaxPatLen || rv.length ≥ Gen.apatMaxPatLen || mx < 1 then "bad-op"
+      else
+        let o : Opts := ⟨mn, mx, false, if delta ≥ 0 then delta else -1, full⟩
+        let t := tpl.map lowerByte
+        let (minsize, length, overlap) := cliFragParams mx fw.length rv.length delta
+        match mkPrimers fw rv e e, fragments minsize length overlap t.length with
+        | some P, some frs =>
+          let cuts : List (String × Nat × Nat) := match frs with
+            | none => [("whole", 0, t.length)]
+            | some l => l.map fun (ab : Nat × Nat) => (s!"{ab.1 + 1}..{ab.2}", ab.1, ab.2)
+          match pcrSlice P o (cuts.map fun c => (t.drop c.2.1).take (c.2.2 - c.2.1)) with
+          | .error b => showBad b
+          | .ok per =>
+            let all := (cuts.zip per).flatMap fun (cl : (String × Nat × Nat) × List Amplicon) =>
+              cl.2.map fun x => s!"{if x.isForward then "f" else "r"}/{cl.1.1}/{x.idFrom + (cl.1.2.1 : Int)}/{hex x.seq}/{hex x.fmatch}/{x.ferr}/{hex x.rmatch}/{x.rerr}"
+            let s := sortStr all
+            if s.isEmpty then "-" else ",".intercalate s
+        | _, _ => "bad-op"
+    | _, _, _, _, _, _, _, _ => "bad-op"
+  | _ => "bad-op"
 
 end ObiVerif.Driver.C11
